@@ -330,6 +330,24 @@ func (m *vMonitor) after(x *vRun, o vOp, ob string) {
 					m.report("C02:refused-unlock-changed-state", fmt.Sprintf("unlock %d was refused with result %d but the key changed: %s -> %s", o.req, res, m.before_, st))
 				}
 			}
+			if (res == protocol_RESULT_UNLOCK_ERROR || res == protocol_RESULT_UNOWN_ERROR) && o.flag == 2 && x.v.db.status == STATE_LEADER {
+				// cancel-wait: by the REPLIES alone (the engine's own enumeration of its wait queue is not consulted) exactly one request of
+				// this LockId on this key is still unanswered, and no hold carries the id: the cancel names a queued request and must find it
+				pending, holder := 0, false
+				for rq, q := range m.reqs {
+					if rq != o.req && q.op.kind == 'L' && q.op.key == o.key && q.op.lockId == o.lockId && len(q.terminal) == 0 && q.op.flag&4 == 0 {
+						pending++
+					}
+				}
+				for _, h := range m.beforeHolds {
+					if h.lockId == o.lockId {
+						holder = true
+					}
+				}
+				if pending == 1 && !holder {
+					m.report("C02:cancel-of-queued-request-refused", fmt.Sprintf("cancel-wait unlock %d names LockId %d, under which one request of key %d is queued (unanswered), and was refused with result %d", o.req, o.lockId, o.key, res))
+				}
+			}
 			if res == protocol_RESULT_UNOWN_ERROR && o.flag == 0 && x.v.db.status == STATE_LEADER {
 				// the owner CAN release: a plain unlock naming the LockId of exactly one outstanding hold of the key is not "unknown"
 				n := 0
